@@ -898,6 +898,12 @@ def _vectors_setter_by_evaluation(ctx):
             ok = isinstance(L, Ten) and isinstance(A, Ten) and L.shape == (2, 3) and A.shape == (2, 3) and all((x_ - y_).n.is_zero() for x_, y_ in zip(L.data, wantL)) and all((x_ - y_).n.is_zero() for x_, y_ in zip(A.data, wantA))
             why = "lengths / angles stored are not (a, b, c) / (alpha, beta, gamma) of the conversion, one row per frame"
         ctx.decide(ok, "C17-R4", sfn, TRAJ, q, "a box sets lengths = (a, b, c) and angles = (alpha, beta, gamma) of one conversion, per frame", "", why)
+        # "no cell" means that every component is zero: a box given in a rotated frame (here the axes permuted cyclically: the diagonal is zero in
+        # every frame) is a cell like any other
+        vecp = ev0.to_ten([[[0, 3, 0], [0, 0, 4], [5, 0, 0]], [[0, 2, 0], [1, 0, 4], [5, 1, 0]]])
+        me, conv = run(vecp)
+        ctx.decide("out" in conv and isinstance(me._unitcell_lengths, Ten), "C17-R4", sfn, TRAJ, q, "a box whose diagonal is zero (axes permuted) is a cell, not the no-cell state", "",
+                   "cell vectors with a zero diagonal and non-zero other components clear lengths and angles: the cell is silently dropped")
         # a box for another number of frames is refused
         try:
             run(ev0.to_ten([[[3, 0, 0], [0, 4, 0], [0, 0, 5]]] * 3))
